@@ -157,7 +157,7 @@ def run(replay=None):
         c.model_check("FlowControl_MC.tla", "FlowControl_MC_send.cfg")
         cases = []
         for g, ns in (("toy", 2), ("maxbelow", 2)):
-            for s in c.enumerate("FlowControl_Env.tla", {"NS": ns, "W": CFGS[g]["w0"], "L": 3}, timeout=3000)   # 54 letters: L = 4 would be 8.5M sequences per configuration; the thorough tier adds walks:
+            for s in c.enumerate("FlowControl_Env.tla", {"NS": ns, "W": CFGS[g]["w0"], "L": 3}, timeout=3000):   # 54 letters: L = 4 would be 8.5M sequences per configuration; the thorough tier adds walks
                 cases.append({"group": g, "cfg": CFGS[g], "ops": [named(o) for o in s]})
         for g in CFGS:
             cases += walks(c.rng, 3000 if not thorough else 40000, 40, g)
